@@ -273,6 +273,7 @@ theorem clean_apply {N : Nat} {s : State} (h : Clean s) (e : Ev) (he : e.enabled
   | cancel i => simp [Ev.orderly] at ho
   | throw i x => simp [Ev.orderly] at ho
   | interrupt i x => simp [Ev.orderly] at ho
+  | reinsert i ps => simp [Ev.orderly] at ho
   | setEv ev =>
     intro j
     simp only [State.apply, State.doSetEv]
